@@ -632,7 +632,9 @@ func genC07Call(t *rapid.T) c07Call {
 		if rapid.Bool().Draw(t, "hasxid") {
 			c.XID = gen.Bytes(t, 4, "xid")
 		}
-		c.Name = rapid.SampledFrom([]string{"", "host1", "a-long-host-name-0123456789"}).Draw(t, "name")
+		// host names of every length up to the 63-octet label limit: the option list grows past the 60 bytes that fit the
+		// 300-byte BOOTP minimum
+		c.Name = strings.Repeat("h", rapid.OneOf(rapid.IntRange(0, 63), rapid.SampledFrom([]int{0, 5, 45, 46, 47, 48, 62, 63})).Draw(t, "nameLen"))
 	case "mdns-query", "llmnr-query":
 		c.Name = rapid.SampledFrom([]string{"host.local.", "_services._dns-sd._udp.local.", "a.b.c.d.e.local.", "x.", "printer-0123456789abcdef0123456789abcdef.local."}).Draw(t, "name")
 	case "nbns-query":
